@@ -224,7 +224,7 @@ func writeDoc(ps []control.Paragraph) (string, error) {
 
 var specC08Cycle = Register(&Spec[DocCase]{
 	Prop: "C08", Name: "cycle",
-	Rule: "every document of the C07 generator is read with the real reader, then taken through three write->read cycles (paragraphs written with WriteTo, separated by one blank line). Oracle: after every cycle the paragraph list has the same length, field order and values (up to one trailing newline) as the first read; no written paragraph contains an empty/whitespace-only line; the text after the second and third write equals the text after the first. Documents in which the reader produced a value starting with an empty line (known finding F14, while recorded) are excluded by construction and counted. Non-trivial: a multi-line value is present; distinct by text.",
+	Rule: "every document of the C07 generator (2/3), and byte-level mutations of such documents and token soups incl. form feed, vertical tab, bare CR, NBSP, NEL, '#' and ':' in odd places as far as the reader accepts them (1/3), is read with the real reader, then taken through three write->read cycles (paragraphs written with WriteTo, separated by one blank line). Oracle: after every cycle the paragraph list has the same length, field order and values (up to one trailing newline) as the first read; no written paragraph contains an empty/whitespace-only line; the text after the second and third write equals the text after the first. Documents in which the reader produced a value starting with an empty line (known finding F14, while recorded) are excluded by construction and counted. Non-trivial: a multi-line value is present; distinct by text.",
 	Exclude: func(c DocCase) string {
 		orig, err := readParas(c.Text)
 		if err != nil {
@@ -302,7 +302,24 @@ var specC08Cycle = Register(&Spec[DocCase]{
 })
 
 func TestC08_Cycle(t *testing.T) {
-	specC08Cycle.Run(t, func(t *rapid.T) DocCase { return genDocCase(t, 4) }, 15000, 100000)
+	specC08Cycle.Run(t, func(t *rapid.T) DocCase {
+		if rapid.IntRange(0, 2).Draw(t, "raw") == 0 {
+			// whatever else the reader accepts: mutated documents and token soups, with the
+			// odd white space (form feed, vertical tab, bare CR, NBSP, NEL) that Go's
+			// TrimSpace treats as blank
+			if rapid.Bool().Draw(t, "soup") {
+				toks := []string{"A", "B", ":", " ", "\n", "\t", "#", ".", "x", "\r\n", "A: 1\n", " c\n", "\n\n", "é", "\f", "\v", "\r", "\u00a0", "\u0085", "#c: d\n", "-----BEGIN PGP ", "\f#k: v\n", ": v\n", "a b: c\n"}
+				n := rapid.IntRange(1, 12).Draw(t, "n")
+				var sb strings.Builder
+				for i := 0; i < n; i++ {
+					sb.WriteString(rapid.SampledFrom(toks).Draw(t, "tok"))
+				}
+				return DocCase{Text: sb.String(), Feats: []string{"raw-soup"}}
+			}
+			return DocCase{Text: mutateBytes(t, genDocCase(t, 3).Text, ": \t\n\r#.-\f\v\u00a0", 3), Feats: []string{"raw-mutated"}}
+		}
+		return genDocCase(t, 4)
+	}, 15000, 100000)
 }
 
 // ------------------------------------------------------------------ encoder
@@ -310,11 +327,12 @@ func TestC08_Cycle(t *testing.T) {
 type EncCase struct {
 	Ps      []ParaVal `json:"ps"`
 	AsSlice bool      `json:"asSlice"`
+	Direct  bool      `json:"direct,omitempty"` // hand the encoder control.Paragraph values themselves
 }
 
 func genEncCase(t *rapid.T) EncCase {
 	n := rapid.IntRange(1, 5).Draw(t, "n")
-	c := EncCase{AsSlice: rapid.Bool().Draw(t, "asSlice")}
+	c := EncCase{AsSlice: rapid.Bool().Draw(t, "asSlice"), Direct: rapid.IntRange(0, 2).Draw(t, "direct") == 0}
 	withEmpty := rapid.IntRange(0, 3).Draw(t, "withEmpty") == 0
 	for i := 0; i < n; i++ {
 		if withEmpty && rapid.IntRange(0, 2).Draw(t, "empty") == 0 {
@@ -329,7 +347,7 @@ func genEncCase(t *rapid.T) EncCase {
 
 var specC08Encoder = Register(&Spec[EncCase]{
 	Prop: "C08", Name: "encoder",
-	Rule: "1..5 paragraphs (C08/write generator; in a quarter of the cases some of them without any field, as an all-empty struct encodes) carried by structs embedding control.Paragraph and written through ONE control.Encoder, either by successive Encode(&struct) calls or as one slice. Oracle: the output reads back as exactly the paragraphs that have fields, in order, with the same field order and values (up to one trailing newline) - a field-less paragraph has no textual form and must neither appear nor merge its neighbours. Non-trivial: >= 2 paragraphs; distinct by paragraph list.",
+	Rule: "1..5 paragraphs (C08/write generator; in a quarter of the cases some of them without any field, as an all-empty struct encodes) carried by structs embedding control.Paragraph (2/3) or handed over as control.Paragraph values themselves (1/3) and written through ONE control.Encoder, either by successive Encode(&struct) calls or as one slice. Oracle: the output reads back as exactly the paragraphs that have fields, in order, with the same field order and values (up to one trailing newline) - a field-less paragraph has no textual form and must neither appear nor merge its neighbours. Non-trivial: >= 2 paragraphs; distinct by paragraph list.",
 	Check: func(c EncCase, r *Recorder) error {
 		hasEmpty := false
 		for _, p := range c.Ps {
@@ -350,7 +368,23 @@ var specC08Encoder = Register(&Spec[EncCase]{
 		for _, p := range c.Ps {
 			hs = append(hs, paraHolder{p.para()})
 		}
-		if c.AsSlice {
+		if c.Direct {
+			ps := []control.Paragraph{}
+			for _, h := range hs {
+				ps = append(ps, h.Paragraph)
+			}
+			if c.AsSlice {
+				if err := enc.Encode(ps); err != nil {
+					return errf("Encode([]control.Paragraph): %v", err)
+				}
+			} else {
+				for i := range ps {
+					if err := enc.Encode(&ps[i]); err != nil {
+						return errf("Encode(&control.Paragraph %d): %v", i, err)
+					}
+				}
+			}
+		} else if c.AsSlice {
 			if err := enc.Encode(hs); err != nil {
 				return errf("Encode(slice): %v", err)
 			}
